@@ -62,6 +62,9 @@ type Run struct {
 	At       int    `json:"at"`      // crash / stop: after this many requests counted from the start of Send; crash-start: from the start of the run
 	FeedTo   int    `json:"feedTo"`  // the source has produced units [0, FeedTo) by the end of this run
 	LingerMs int    `json:"lingerMs"`
+	// ResyncTo > 0: the source answers this connection with a full resynchronisation under the same replication id: an (empty) snapshot
+	// taken after unit ResyncTo-1, which therefore counts as applied, then the stream from there
+	ResyncTo int `json:"resyncTo,omitempty"`
 }
 
 type Case struct {
@@ -130,6 +133,9 @@ func genCase(t *rapid.T) Case {
 			r.At = rapid.IntRange(1, 7*nu+8).Draw(t, "at")
 		}
 		r.LingerMs = rapid.SampledFrom([]int{0, 5, 30, 120, 230}).Draw(t, "linger")
+		if i > 0 && fed > 0 && rapid.IntRange(0, 5).Draw(t, "resync") == 0 {
+			r.ResyncTo = rapid.IntRange(1, fed).Draw(t, "resyncTo")
+		}
 		c.Runs = append(c.Runs, r)
 	}
 	if c.Nodes > 0 && rapid.IntRange(0, 3).Draw(t, "laneRace") == 0 {
@@ -150,6 +156,18 @@ func genCase(t *rapid.T) Case {
 			if c.Runs[i].FeedTo < nu {
 				c.Runs[i].FeedTo = nu
 			}
+		}
+	}
+	if c.Nodes > 0 && nu >= 5 && rapid.IntRange(0, 5).Draw(t, "quietResync") == 0 {
+		// a history with a full resynchronisation after which nothing new arrives before the next restart: the sequence numbering starts
+		// over while the recovery records of the earlier units (other slots, higher sequence numbers, lower offsets) are still there
+		c.Link.Mode = rapid.SampledFrom([]string{"sync", "sync", "pipeline"}).Draw(t, "qrMode")
+		m := rapid.IntRange(3, nu-2).Draw(t, "qrFirst")
+		// the snapshot is taken after one more unit which the link never replayed (the source moved on), and covers everything produced so far
+		c.Runs = []Run{
+			{Restart: "process", Fault: "none", FeedTo: m, LingerMs: 5},
+			{Restart: rapid.SampledFrom([]string{"process", "input"}).Draw(t, "qrR1"), Fault: "none", FeedTo: m + 1, ResyncTo: m + 1, LingerMs: 5},
+			{Restart: rapid.SampledFrom([]string{"process", "input"}).Draw(t, "qrR2"), Fault: rapid.SampledFrom([]string{"none", "stop", "crash"}).Draw(t, "qrF2"), At: rapid.IntRange(3, 14).Draw(t, "qrAt"), FeedTo: nu, LingerMs: 5},
 		}
 	}
 	// the last run: everything is produced and applied, then a graceful stop; one more start asks for the final resume point
@@ -175,6 +193,7 @@ type world struct {
 	pieces     [][2]int
 	byEnd      map[int64]int
 	valUnit    map[string]int
+	covered    map[int]bool // units whose effect a later snapshot contained
 	cmu        sync.Mutex
 	sending    atomic.Bool   // a Send is in progress (as opposed to start-up / StartPoint)
 	coordSaves atomic.Int64  // frontier saves made while sending (by the coordinator)
@@ -188,7 +207,7 @@ func (wd *world) commitCount(end int64) int {
 }
 
 func build(c Case) *world {
-	wd := &world{c: c, byEnd: map[int64]int{}, valUnit: map[string]int{}, commits: map[int64]int{}}
+	wd := &world{c: c, byEnd: map[int64]int{}, valUnit: map[string]int{}, commits: map[int64]int{}, covered: map[int]bool{}}
 	if c.Nodes == 0 {
 		wd.tgt = &bsync.Target{Std: fake.NewServer()}
 	} else {
@@ -303,7 +322,7 @@ func (wd *world) observe() (f facts, fs []failure) {
 						}
 					}
 					for u, e := range wd.unitEnd {
-						if e <= off && (f.committed[u] == 0) {
+						if e <= off && f.committed[u] == 0 && !wd.covered[u] {
 							fs = append(fs, failure{"frontier-passes-missing-unit", fmt.Sprintf("request %d stores the frontier (seq %d, offset %d) although unit %d (ends at %d) has not been committed at that moment", b.Seq, seq, off, u, e)})
 							break
 						}
@@ -426,6 +445,7 @@ func run(c Case) (fs []failure, inconc string, cls map[string]bool, hist any) {
 	}
 
 	prevResume := x0
+	covered := wd.covered // units whose effect a later snapshot contained
 	lastFed := 0
 	retries := 0
 	runs := append([]Run(nil), c.Runs...)
@@ -474,13 +494,13 @@ func run(c Case) (fs []failure, inconc string, cls map[string]bool, hist any) {
 		}
 		rl.Resume, rl.ResumeRun = sp.Offset, sp.RunId
 		// ---- the resume point
-		maxEnd, lastU := x0, -1
-		for u := range before.committed {
-			if wd.unitEnd[u] > maxEnd {
-				maxEnd, lastU = wd.unitEnd[u], u
+		isDone := func(u int) bool { return before.committed[u] > 0 || covered[u] }
+		maxEnd := x0
+		for u := range wd.unitEnd {
+			if isDone(u) && wd.unitEnd[u] > maxEnd {
+				maxEnd = wd.unitEnd[u]
 			}
 		}
-		_ = lastU
 		fail := func(sig, msg string) {
 			fs = append(fs, failure{sig, fmt.Sprintf("run %d (%s restart after %s, mode %s): %s; committed units before this start: %v, unit ends %v", ri, r.Restart, prevFault(runs, ri), c.Link.Mode, msg, rl.Committed, wd.unitEnd)})
 		}
@@ -491,11 +511,11 @@ func run(c Case) (fs []failure, inconc string, cls map[string]bool, hist any) {
 			switch {
 			case sp.Offset != x0 && !isEnd:
 				fail("resume-point-not-a-unit-boundary", fmt.Sprintf("resume offset %d ends no replay unit", sp.Offset))
-			case sp.Offset != x0 && before.committed[u] == 0:
+			case sp.Offset != x0 && !isDone(u):
 				fail("resume-point-not-committed", fmt.Sprintf("resume offset %d ends unit %d, which the target has not committed", sp.Offset, u))
 			}
 			for v, e := range wd.unitEnd {
-				if e <= sp.Offset && before.committed[v] == 0 {
+				if e <= sp.Offset && !isDone(v) {
 					fail("resume-skips-uncommitted-unit", fmt.Sprintf("resume offset %d lies behind unit %d (ends at %d), which was never committed", sp.Offset, v, e))
 					break
 				}
@@ -523,6 +543,36 @@ func run(c Case) (fs []failure, inconc string, cls map[string]bool, hist any) {
 			cls["restart-without-new-traffic"] = true
 		}
 		lastFed = r.FeedTo
+
+		// ---- a full resynchronisation decided by the source (same replication id): snapshot, then the stream from its offset
+		if r.ResyncTo > 0 {
+			k := r.ResyncTo
+			// the snapshot is ahead of what the link has replayed (the source moved on while its backlog was lost)
+			for k < len(wd.unitEnd) && wd.unitEnd[k-1] <= sp.Offset {
+				k++
+			}
+			if wd.unitEnd[k-1] > sp.Offset && k <= r.FeedTo {
+				at := wd.unitEnd[k-1]
+				rctx, rcancel := context.WithTimeout(ctx, 20*time.Second)
+				err := ro.Send(rctx, &gen.Reader{R: bufio.NewReader(strings.NewReader(string(rdbBytes))), LeftV: at, RunID: ids[0], Aof: false, SizeV: int64(len(rdbBytes))})
+				rcancel()
+				if err != nil {
+					cancel()
+					rl.SendErr, rl.Dead = "snapshot: "+err.Error(), wd.w.Dead()
+					logs = append(logs, rl)
+					if !wd.w.Dead() {
+						return []failure{{"snapshot-replay-fails", fmt.Sprintf("run %d: replaying the snapshot of a full resynchronisation fails on a healthy target: %v", ri, err)}}, "", cls, nil
+					}
+					continue
+				}
+				for u := 0; u < k; u++ {
+					covered[u] = true
+				}
+				sp.Offset = at
+				prevResume = at
+				cls["full-resync-mid-history"] = true
+			}
+		}
 
 		// ---- replay from the resume point
 		feedEnd := x0 + int64(len(resp.CmdS("SELECT", "0")))
@@ -644,6 +694,9 @@ func run(c Case) (fs []failure, inconc string, cls map[string]bool, hist any) {
 	if len(fs) == 0 {
 		for u := range c.Units {
 			n := final.committed[u]
+			if n == 0 && covered[u] {
+				continue
+			}
 			if n == 0 {
 				fs = append(fs, failure{"unit-never-applied", fmt.Sprintf("unit %d was never committed although the last run replayed the stream to its end (mode %s)", u, c.Link.Mode)})
 				break
